@@ -8,7 +8,7 @@ import re
 import z3
 
 from . import mir
-from .engine import (Engine, Adt, Tup, Slice, Ref, HVec, Deque, Coroutine, NativeFuture, NativeObj, FloatVal, Opaque, Token,
+from .engine import (Env, Engine, Adt, Tup, Slice, Ref, HVec, Deque, Coroutine, NativeFuture, NativeObj, FloatVal, Opaque, Token,
                      UNIT, Panic, Unsupported, Some, NONE, Ok, Err, deref, is_sym, copy_val, FmtArguments)
 from . import natives
 from .natives import native, as_slice, block_on, render_arguments
@@ -278,14 +278,14 @@ class World:
     def run(s, dev, buf, writer, max_polls=64):
         ex = s.ex
         f = ex.lookup('Interface::run', 'microscpi')
-        env = {'Self': dev.ty}
+        env = Env({'Self': dev.ty})
         co = ex.call_fn(f, [Ref([dev], 0), Slice(buf, 0, len(buf)), Ref([writer], 0)], env)
         return block_on(ex, co, max_polls)
 
     def process(s, dev, n, adapter, max_polls=200):
         ex = s.ex
         f = ex.lookup('Interface::process', 'microscpi')
-        env = {'Self': dev.ty, 'N': str(n), 'A': 'ScriptAdapter'}
+        env = Env({'Self': dev.ty, 'N': str(n), 'A': 'ScriptAdapter'})
         co = ex.call_fn(f, [Ref([dev], 0), Ref([adapter], 0)], env)
         return block_on(ex, co, max_polls)
 
